@@ -99,9 +99,12 @@ def _nonlin_solver(fcn, x0, params,
 
         dx_norm = dx.norm()
         if dx_norm == 0:
-            raise ValueError("Jacobian inversion yielded zero vector. "
-                             "This indicates a bug in the Jacobian "
-                             "approximation.")
+            # the Jacobian model proposes no change: e.g. an iterative linear solver whose
+            # absolute tolerance is above |f|. The iterate cannot be improved any further, so
+            # it is the solution if it meets the stopping criteria (with the zero step),
+            # otherwise the iteration ends with the non-convergence warning below
+            converge = stop_cond.check(x, y, dx)
+            break
 
         if line_search:
             s, xnew, ynew, y_norm_new = _nonline_line_search(func, x, y, dx,
